@@ -12,6 +12,12 @@
     base also Spec/Laws2.v, for the covered operations between ForceBackup
     and Rollback) with respect to abstract views [Vb], [Vk].  The laws are
     hypotheses of the theorems, not axioms.  Proofs: Proofs/BackupForce.v.
+    Proofs/LawsOsfs*.v proves the laws for the concrete generic layering (two
+    PrefixFS with disjoint prefixes over the OS filesystem): [C17_concrete]
+    and [C17_concrete_force_backup] below are closed theorems about that
+    layering; Proofs/ConcreteExample.v exhibits a non-trivial instance of
+    their hypotheses ([c17_concrete_instance]) and checks the conclusion
+    against a run of the model ([c17_concrete_by_computation]).
 
     What is proved.
     - [C17_force_backup_rebaselines]: in any state [w] satisfying the
@@ -102,6 +108,7 @@ From BFS Require Import Spec.CopySpecs.
 From BFS Require Import Backup.History.
 From BFS Require Import Proofs.BackupCopy Proofs.BackupTry Proofs.BackupRollback Proofs.BackupC01
                         Proofs.BackupForce.
+From BFS Require Import Spec.ViewOsfs Proofs.LawsOsfs.
 
 (** ForceBackup keeps the invariant, for the new baseline *)
 Theorem C17_force_backup_rebaselines :
@@ -173,6 +180,55 @@ Theorem C17_untracked_is_try_backup :
   force_backup_untracked_stmt base backup Vb Vk tnb tnk accb acck rhb rhk whb whk B0.
 Proof. exact force_backup_untracked_spec. Qed.
 Print Assumptions C17_untracked_is_try_backup.
+
+(** the property, closed, for the concrete layering base = PrefixFS([pa]),
+    backup = PrefixFS([pb]) over the OS filesystem of the model ([Inv] of a
+    state reached from an initial one by covered operations: [inv_concrete] of
+    Proofs/LawsOsfs.v) *)
+Theorem C17_concrete :
+  forall pa pb, prefix_ok pa -> prefix_ok pb -> disjoint_prefixes pa pb ->
+  forall B0, links_ok clean clean (acc_p pa) (acc_p pb) B0 -> all_small B0 -> swf B0 ->
+  forall w p, Inv (Vp pa) (Vp pb) B0 w -> snolinkpar (Vp pa w) p -> p <> s_root ->
+  entry_ok clean clean (acc_p pa) (acc_p pb) p (Vp pa w !! p) -> orig_not_dir_cond w p ->
+  parents_original (Vp pa) B0 w p ->
+  forall r w1 ops w2,
+    b_force_backup (cfg_base (gcfg pa pb)) (cfg_backup (gcfg pa pb)) p w = (r, w1) ->
+    good_run (cfg_base (gcfg pa pb)) (cfg_backup (gcfg pa pb)) (Vp pa) w1 ops w2 ->
+    exists w3, b_rollback (cfg_base (gcfg pa pb)) (cfg_backup (gcfg pa pb)) w2 = (MOk tt, w3) /\
+               sonode_eqv (Vp pa w3 !! p) (Vp pa w !! p) /\
+               (forall q, q <> p -> q <> s_root -> sonode_eqv (Vp pa w3 !! q) (B0 !! q)) /\
+               (forall q, q <> s_root -> Vp pb w3 !! q = None) /\ w_infos w3 = ∅ /\
+               (r <> MOk tt -> (forall fi, w_infos w !! p <> Some (Some fi)) ->
+                sonode_eqv (Vp pa w3 !! p) (B0 !! p)).
+Proof. exact c17_concrete. Qed.
+Print Assumptions C17_concrete.
+
+(** ForceBackup keeps the invariant for the new baseline, closed, same layering *)
+Theorem C17_concrete_force_backup :
+  forall pa pb, prefix_ok pa -> prefix_ok pb -> disjoint_prefixes pa pb ->
+  forall B0, links_ok clean clean (acc_p pa) (acc_p pb) B0 -> all_small B0 -> swf B0 ->
+  forall w p, Inv (Vp pa) (Vp pb) B0 w -> snolinkpar (Vp pa w) p -> p <> s_root ->
+  entry_ok clean clean (acc_p pa) (acc_p pb) p (Vp pa w !! p) -> orig_not_dir_cond w p ->
+  parents_original (Vp pa) B0 w p ->
+  let B0' := rebase B0 p (Vp pa w !! p) in
+  swf B0' /\ links_ok clean clean (acc_p pa) (acc_p pb) B0' /\ all_small B0' /\
+  exists r w', b_force_backup (cfg_base (gcfg pa pb)) (cfg_backup (gcfg pa pb)) p w = (r, w') /\
+               r <> MHalt /\ Vp pa w' = Vp pa w /\
+               Inv (Vp pa) (Vp pb) B0' w' /\
+               (forall q, q <> p -> w_infos w !! q <> None -> w_infos w' !! q = w_infos w !! q) /\
+               (forall q, w_infos w' !! q <> None -> w_infos w !! q <> None \/ In q (cands p)) /\
+               (r = MOk tt ->
+                  Forall (tracked w') (ancestors p) /\
+                  match Vp pa w !! p with
+                  | None => w_infos w' !! p = Some None
+                  | Some n => exists fi, w_infos w' !! p = Some (Some fi) /\ info_matches fi n
+                  end) /\
+               ((forall q n, In q (ancestors p) -> Vp pa w !! q = Some n -> node_kind n = KDir) ->
+                r = MOk tt) /\
+               (r <> MOk tt -> w_infos w !! p = Some None ->
+                w_infos w' !! p = Some None /\ Vp pa w !! p = None).
+Proof. exact force_backup_concrete. Qed.
+Print Assumptions C17_concrete_force_backup.
 
 (** * Witnesses in the concrete model (documented layering: base hides /bk,
     backup is PrefixFS(/bk)) *)
